@@ -40,7 +40,8 @@ def draw_case(draw, closed=()):
     ops = []
     if num and g.boolean(0.8):
         x = g.pick(num)
-        kind = g.pick(["neg_pow", "neglit_pow", "pow_neg_exp", "neg_compound", "nested_neg", "sub_chain", "neg_mul", "pow_tower_left", "pow_tower_right", "div_chain", "neg_method", "sub_method"])
+        kind = g.pick(["neg_pow", "neglit_pow", "pow_neg_exp", "neg_compound", "nested_neg", "sub_chain", "neg_mul", "pow_tower_left", "pow_tower_right", "div_chain", "neg_method", "sub_method",
+                       "div_coalesce", "mul_coalesce", "pow_coalesce_base", "pow_coalesce_exp", "coalesce_nested", "neg_div_lit", "sub_coalesce"])
         X = ["col", x]
         e = {
             "neg_pow": ["call", "**", [["call", "neg", [X]], ["lit", 2]]],
@@ -55,18 +56,32 @@ def draw_case(draw, closed=()):
             "div_chain": ["call", "/", [X, ["call", "/", [["lit", 4.0], ["lit", 2.0]]]]],
             "neg_method": ["call", "abs", [["call", "neg", [X]]]],
             "sub_method": ["call", "abs", [["call", "-", [X, ["lit", 1]]]]],
+            # method-call results (coalesce) as operands: however they are printed, the operand must stay one unit
+            "div_coalesce": ["call", "/", [["lit", 4.0], ["call", "coalesce", [X, ["lit", 2.0]]]]],
+            "mul_coalesce": ["call", "*", [["call", "+", [X, ["lit", 1.0]]], ["call", "coalesce", [X, ["lit", 2.0]]]]],
+            "pow_coalesce_base": ["call", "**", [["call", "coalesce", [["call", "abs", [X]], ["lit", 2.0]]], ["lit", 2]]],
+            "pow_coalesce_exp": ["call", "**", [["lit", 2.0], ["call", "coalesce", [["call", "abs", [X]], ["lit", 1.0]]]]],
+            "coalesce_nested": ["call", "coalesce", [X, ["call", "coalesce", [X, ["lit", 3.0]]]]],
+            "sub_coalesce": ["call", "-", [["lit", 7.0], ["call", "coalesce", [X, ["lit", 2.0]]]]],
+            "neg_div_lit": ["call", "neg", [["call", "/", [["lit", 7.0], ["call", "+", [["call", "abs", [X]], ["lit", 2.0]]]]]]],
         }[kind]
-        ops.append(["x" if kind in ("pow_neg_exp", "neg_mul", "pow_tower_left", "div_chain") else ("w" if kind != "neglit_pow" else "z"), ["call", "*", [e, ["lit", 1.0]]]])
+        ops.append(["x" if kind in ("pow_neg_exp", "neg_mul", "pow_tower_left", "div_chain", "div_coalesce", "mul_coalesce", "pow_coalesce_base", "pow_coalesce_exp", "coalesce_nested", "sub_coalesce", "neg_div_lit") else ("w" if kind != "neglit_pow" else "z"), ["call", "*", [e, ["lit", 1.0]]]])
         feats.append(kind)
     if strs and g.boolean(0.8):
         s = g.pick(strs)
-        kind = g.pick(["str_eq", "concat", "is_in", "mapv", "if_else_str"])
+        kind = g.pick(["str_eq", "concat", "is_in", "mapv", "if_else_str", "concat_right_nested", "concat_left_nested", "coalesce_concat"])
         S = ["col", s]
         lit = g.pick(NASTY)
         if kind == "str_eq":
             ops.append(["p", ["call", "==", [S, ["lit", lit]]]])
         elif kind == "concat":
             ops.append(["t", ["call", "%+%", [S, ["lit", lit]]]])
+        elif kind == "concat_right_nested":
+            ops.append(["t", ["call", "%+%", [S, ["call", "%+%", [S, ["lit", lit]]]]]])
+        elif kind == "concat_left_nested":
+            ops.append(["t", ["call", "%+%", [["call", "%+%", [S, ["lit", lit]]], S]]])
+        elif kind == "coalesce_concat":
+            ops.append(["t", ["call", "%+%", [["lit", "a"], ["call", "coalesce", [S, ["lit", lit]]]]]])
         elif kind == "is_in":
             ops.append(["q", ["call", "is_in", [S, ["list", g.subset(NASTY, lo=1, hi=3)]]]])
         elif kind == "mapv":
